@@ -397,7 +397,7 @@ impl Installer for SimInstaller {
     ) -> LocalBoxFuture<'a, (u32, Vec<AppInstallResult<SimErr>>)> {
         let w = self.w.clone();
         async move {
-            let (progress, results, gated, token, detach) = {
+            let (progress, results, gated, token, detach, clock_step) = {
                 let mut g = lock(&w);
                 if g.interact() {
                     drop(g);
@@ -408,7 +408,7 @@ impl Installer for SimInstaller {
                 let cs = g.script.checks.get(plan.check).cloned().unwrap_or_default();
                 let mut results = cs.results.clone();
                 results.resize(plan.offered, InstRes::Installed);
-                (cs.progress, results, g.script.gated.install, plan.check as u32, cs.detach_last_progress)
+                (cs.progress, results, g.script.gated.install, plan.check as u32, cs.detach_last_progress, cs.install_clock_step)
             };
             let n_progress = progress.len();
             for (pi, p) in progress.into_iter().enumerate() {
@@ -439,6 +439,12 @@ impl Installer for SimInstaller {
                 if g.interact() {
                     drop(g);
                     return future::pending().await;
+                }
+                if let Some((dw, dm)) = clock_step {
+                    g.wall_ns += dw;
+                    g.mono_ns += dm;
+                    let (wall, mono) = (g.wall_ns, g.mono_ns);
+                    g.push(Ev::Clock { wall, mono });
                 }
                 g.push(Ev::InstallDone { results: results.clone() });
             }
